@@ -1984,6 +1984,17 @@ func (r *Raft) installSnapshot(rpc RPC, req *InstallSnapshotRequest) {
 	}
 	r.logger.Info("copied to local snapshot", "bytes", n)
 
+	// Drop what the snapshot supersedes in a log store that keeps old entries.
+	// If that fails the leader has to try again: the entries must not survive
+	// below the snapshot. (A crash right here is repaired by NewRaft.)
+	if mlogs, ok := r.logs.(MonotonicLogStore); !ok || !mlogs.IsMonotonic() {
+		if err := r.dropUnconfirmedLogs(req.LastLogIndex, req.LastLogTerm); err != nil {
+			r.logger.Error("failed to drop unconfirmed logs", "error", err)
+			rpcErr = err
+			return
+		}
+	}
+
 	// Restore snapshot
 	future := &restoreFuture{ID: sink.ID()}
 	future.ShutdownCh = r.shutdownCh
@@ -2028,6 +2039,45 @@ func (r *Raft) installSnapshot(rpc RPC, req *InstallSnapshotRequest) {
 	r.logger.Info("Installed remote snapshot")
 	resp.Success = true
 	r.setLastContact()
+}
+
+// dropUnconfirmedLogs is called when a snapshot up to snapIdx has been installed
+// (or, at start-up, restored). If our log does not hold the snapshot's last
+// entry, the entries between our commit index and snapIdx were never confirmed
+// by the leader and are superseded by the snapshot: remove them so that they
+// can never be served to another server or applied. Entries above snapIdx are
+// reconciled by the next AppendEntries.
+func (r *Raft) dropUnconfirmedLogs(snapIdx, snapTerm uint64) error {
+	lastLogIdx, _ := r.getLastLog()
+	if lastLogIdx == 0 {
+		return nil
+	}
+	var l Log
+	if err := r.logs.GetLog(snapIdx, &l); err == nil && l.Term == snapTerm {
+		return nil
+	}
+	firstIdx, err := r.logs.FirstIndex()
+	if err != nil {
+		return err
+	}
+	from := max(r.getCommitIndex()+1, firstIdx)
+	to := min(snapIdx, lastLogIdx)
+	if firstIdx == 0 || from > to {
+		return nil
+	}
+	r.logger.Warn("dropping log entries superseded by snapshot", "from", from, "to", to)
+	if err := r.logs.DeleteRange(from, to); err != nil {
+		return err
+	}
+	if to == lastLogIdx {
+		// We removed the tail of the log, fix up the cached last log
+		if from > firstIdx && r.logs.GetLog(from-1, &l) == nil {
+			r.setLastLog(l.Index, l.Term)
+		} else {
+			r.setLastLog(0, 0)
+		}
+	}
+	return nil
 }
 
 // setLastContact is used to set the last contact time to now
